@@ -479,10 +479,7 @@ def _build_case(r):
         else:
             op = CO.build_op(o, c.qs)
             claim = cirq.has_stabilizer_effect(op)
-            if not claim:
-                if len(op.qubits) == 1:
-                    raise Violation(f"has_stabilizer_effect is False for the single-qubit Clifford operation {op!r} "
-                                    "(documented: always correct for 1-qubit gates)")
+            if not claim:  # only operations that claim a stabilizer effect are in the domain
                 c.dropped += 1
                 continue
             U = cirq.unitary(op)
@@ -649,6 +646,18 @@ def _follow(rep, c, script, lab):
                 raise Violation(f"{what}: CH-form state_vector differs from the reference by {d:.3g} "
                                 f"({'only a global phase' if dp <= tol else f'{dp:.3g} up to phase'})")
     lab["entangled_end"] = _entangled(psi, n)
+    # copies are independent of the original
+    cp = st_.copy()
+    cirq.act_on(cirq.X(c.qs[0]), cp)
+    cirq.act_on(cirq.H(c.qs[-1]), cp)
+    tol = TOL * (2 + depth)
+    psi_cp = L.apply_matrix((L.PX + L.PZ) / np.sqrt(2), [n - 1], [2] * n, L.apply_matrix(L.PX, [0], [2] * n, psi))
+    if rep == "tab":
+        _check_tableau(st_.tableau, psi, n, "tableau after acting on its copy", tol)
+        _check_tableau(cp.tableau, psi_cp, n, "copy of the tableau after X, H", tol)
+    else:
+        _exact_eq("CH form after acting on its copy", st_.state.state_vector(), psi, tol)
+        _exact_eq("copy of the CH form after X, H", cp.state.state_vector(), psi_cp, tol)
     return st_, psi
 
 
@@ -776,6 +785,25 @@ def oracle_dist(r):
                           ref[key]["psi"][0], tol)
         _compare_distribution(f"CliffordSimulator(split={bool(r.get('split'))}).simulate", got, ref, tol)
 
+        def run_state(prng):
+            cs = cirq.CliffordState({q: i for i, q in enumerate(c.qs)}, initial_state=c.init)
+            meas = {}
+            for kind, op, U, axes, meta in c.items:
+                if kind == "u":
+                    cs.apply_unitary(op)
+                elif kind == "m":
+                    cs.apply_measurement(op, meas, prng)
+                else:
+                    raise Reject("CliffordState has no reset")
+            return cs, meas
+
+        if not has_reset:
+            got = []
+            for p, script, (cs, meas), prng in enumerate_branches(run_state, max_branches=MAXB):
+                sv = cs.state_vector()
+                got.append((p, _rec_key(meas), np.outer(sv, sv.conj())))
+            _compare_distribution("CliffordState.apply_unitary/apply_measurement", got, ref, tol)
+
         if has_meas:
             def run_run(prng):
                 return cirq.CliffordSimulator(seed=prng, split_untangled_states=bool(r.get("split"))).run(c.circuit, repetitions=1)
@@ -792,7 +820,7 @@ def oracle_dist(r):
             _compare_distribution("StabilizerSampler.run(repetitions=1)", got, ref0, tol, states=False)
     except OverflowError:
         raise Reject("more outcome branches than the enumeration budget")
-    lab["nontrivial"] = len(ref) >= 2 and any(_entangled(x, n) for e in ref.values() for x in e["psi"] if x is not None) or (len(ref) >= 2 and has_reset)
+    lab["nontrivial"] = bool(len(ref) >= 2 and any(it[0] == "u" and len(it[3]) >= 2 for it in c.items))
     lab["split"] = bool(r.get("split"))
     return lab
 
@@ -813,7 +841,7 @@ def _is_clifford_matrix(u, atol):
 
 
 def _f13_1(sub, recipe):
-    """Candidate F13-1: a multi-qubit gate that claims stabilizer effect only through the <=3-qubit unitary strategy of
+    """Known finding: a multi-qubit gate that claims stabilizer effect only through the <=3-qubit unitary strategy of
     has_stabilizer_effect (no own _has_stabilizer_effect_ == True) and has no one-level decomposition into claiming
     operations: CliffordSimulator.is_supported_operation is True, yet act_on raises TypeError."""
     if sub != "claims":
@@ -829,26 +857,16 @@ def _f13_1(sub, recipe):
     return dec is None or not all(cirq.has_stabilizer_effect(o) for o in dec)
 
 
-def _f13_2(sub, recipe):
-    """Candidate F13-2: PhasedXZGate._has_stabilizer_effect_ rounds the raw exponents to 2 decimals *before*
-    canonicalising them, so Clifford gates whose raw axis phase is irrelevant (x == 0) or is shifted by z/2 (x == 1)
-    are reported as non-Clifford although has_stabilizer_effect is documented to be always correct for 1-qubit gates."""
-    if sub != "claims" or recipe["g"][0] != "PhasedXZ":
-        return False
-    gate = G.build_gate(recipe["g"])
-    return bool(_is_clifford_matrix(cirq.unitary(gate), 1e-11) and not gate._has_stabilizer_effect_())
-
-
-KNOWN_FEATURES = {"F13_1_unitary_claim_not_simulable": _f13_1, "F13_2_phasedxz_false_negative": _f13_2}
-# Candidates reported to the coordinator and not yet adjudicated: kept out of *generation* (the oracle still rejects
-# them as violations when given such a recipe, e.g. from known_findings.json).  VERIF_C13_PENDING=1 generates them.
-PENDING = set() if os.environ.get("VERIF_C13_PENDING") else {"F13_1_unitary_claim_not_simulable", "F13_2_phasedxz_false_negative"}
+KNOWN_FEATURES = {"C13_clifford_via_unitary_multi_qubit_act_on_typeerror": _f13_1}
+# Known finding (kept, not repaired): the feature stays out of *generation*; the oracle still reports it as a violation
+# when given such a recipe (known_findings.json replays its stored recipe and prints KNOWN-FINDING).
+EXCLUDED = {"C13_clifford_via_unitary_multi_qubit_act_on_typeerror"}
 
 
 @st.composite
 def _claims_case(draw):
     g = draw(G.gate_recipes(lambda f: f.unitary and not f.qudit and "zeroq" not in f.tags, max_arity=3).filter(
-        lambda g: not any(KNOWN_FEATURES[f]("claims", {"g": g}) for f in sorted(PENDING))))
+        lambda g: not any(KNOWN_FEATURES[f]("claims", {"g": g}) for f in sorted(EXCLUDED))))
     k = G.arity(g)
     n = draw(st.integers(k, min(k + 2, 4)))
     names = list(draw(st.permutations(list(range(n + 1)))))[:n]
@@ -875,8 +893,7 @@ def oracle_claims(r):
         raise Violation(f"has_stabilizer_effect differs between the gate ({claim_gate}) and its operation ({claim})")
     if claim and not loose:
         raise Violation(f"{fam}: claims stabilizer effect but its unitary does not normalise the Pauli group")
-    if len(w) == 1 and strict and not claim:
-        raise Violation(f"{fam}: single-qubit Clifford gate does not claim stabilizer effect (documented: always correct for 1-qubit gates)")
+    # (a False answer for a gate that is Clifford is incompleteness, outside the property: only True answers are judged)
     if cirq.CliffordSimulator.is_supported_operation(op) != claim:
         raise Violation("CliffordSimulator.is_supported_operation differs from has_stabilizer_effect")
     if not claim:
